@@ -17,6 +17,8 @@ macro_rules! with_check {
             "C02" => $f::<props::c02::C02>($($arg),*),
             "C05" => $f::<props::c05::C05>($($arg),*),
             "C06" => $f::<props::c06::C06>($($arg),*),
+            "C09" => $f::<props::c09::C09>($($arg),*),
+            "C10" => $f::<props::c10::C10>($($arg),*),
             other => {
                 eprintln!("unknown check {other}");
                 std::process::exit(2);
